@@ -421,6 +421,15 @@ func (w *World) checkLiveFileRemoved(ev *simrt.Event, cls string) {
 	if t := w.Sim.Tasks[o.Task]; t.Crashed || t.Killed {
 		return
 	}
+	if cls == "table" && w.everListed[filepath.Base(ev.Path)] {
+		// a table that tables.list has named is committed state, not a
+		// file its creator is still working on: once a later version
+		// drops it, it is garbage for everybody (a first version of this
+		// monitor flagged Close removing the inputs of a compaction whose
+		// operation - the Add that had created one of them - was still
+		// deleting them itself: false alarm, corrected before registering)
+		return
+	}
 	live := false
 	if oc := w.curCall[o.Task]; oc != nil && oc.Op == o.Op && !oc.Done {
 		live = true
